@@ -28,15 +28,28 @@
    The syntax-error position is also compared on every run, against the real library (whose LALR automaton with default
    reductions must report the same token: that is a statement about grammar.c, tied by correspondence) and against a
    reference parser written from the manual (pygen/refparse.py), by exhaustive-bounded token-sequence enumeration.
-   The parser model is a recursive-descent function performing the grammar.y actions in bison's order;
-   grammar.c's LALR tables are not translated (DESIGN.md section 8).  Composition with the scanner: the
-   tokens are those of C18.
+   THE COMPILED LALR(1) TABLES (LalrEngine.v, LalrFacts.v): the parser model used above is a recursive-descent function
+   performing the grammar.y actions in bison's order.  tools/gen_grammar.py re-extracts, on every run, the tables of the
+   compiled lib/grammar.c (yytranslate, yypact, yydefact, yypgoto, yydefgoto, yytable, yycheck, yyr1, yyr2 and the
+   constants) and the semantic action of every rule (classified by its text) into gen/GrammarTables.v; LalrEngine.v is a
+   Gallina transcription of bison's driver (yyparse: yybackup / yydefault / yyreduce / yyerrlab) over those tables, and
+   C02_lalr_equiv proves that for EVERY token list that contains its stopping token, every root group and both override
+   settings, the table-driven engine gives exactly the answer of the recursive-descent model - same outcome, same error
+   kind, same tree, same error position, same number of tokens read (the accepted state only differs by the shifted
+   end-of-input token) - within 4 * length + 1 engine steps.  Every fact about the 47-state automaton used by the
+   simulation proof is evaluated from the generated tables, so the proof is re-checked against what grammar.c contains
+   now; C02_lalr_agrees_bounded is the same agreement evaluated on all 204 205 token-kind sequences up to length 4 (a
+   regression test of the engine, not the proof).  All theorems above therefore hold of the engine over the compiled
+   tables.  What stays hand-transcribed and tied by correspondence: the 60 lines of yyparse's control flow (LalrEngine.v)
+   and the meaning of each classified action text (GramAction.gaction -> act_name / act_open / act_scalar).
+   Composition with the scanner: the tokens are those of C18.
 
    Known finding F4: a mismatched STRING array element is reported at the line of the token after it. *)
 From Coq Require Import List ZArith Bool.
 Import ListNotations.
 From LC Require Import Base Tree Fp Lookup Api ScanAction Tokens Lexer Parser GrammarFacts Reader Writer WriterFacts LexWrite ParseWrite
-  ParseComplete ParseFail ParseExact ParseTotal ParseNames ParseSyntax ReadSyntax Bisim.
+  ParseComplete ParseFail ParseExact ParseTotal ParseNames ParseSyntax ReadSyntax LalrEngine LalrCheck LalrFacts Bisim.
+From LC.gen Require Import GrammarTables.
 From LC.gen Require Import Consts.
 Local Open Scope Z_scope.
 
@@ -369,3 +382,74 @@ Example C02_syntax_error_example :
     (forall rest' ts junk, map lt_tok (pre ++ t :: rest') = ts ++ TkEOF :: junk -> ~ Dsettings ts) /\
     (exists suffix s3, p_config false (mkP new_root (pre ++ suffix) false O 0 None) = POk s3).
 Proof. exact ParseSyntax.ex_first_offence. Qed.
+
+
+(* ------------------------------------------------------------------------------------------------------- *)
+(* the compiled LALR(1) tables of grammar.c implement the parser model (LalrEngine.v, LalrFacts.v)            *)
+(* ------------------------------------------------------------------------------------------------------- *)
+
+(* the table-driven engine (bison's driver over the tables regenerated from lib/grammar.c) and the recursive-descent
+   model give the same answer on every token list, every root group, both override settings *)
+Theorem C02_lalr_equiv : forall ov root lts fuel,
+  has_stop (map lt_tok lts) -> s_ty root = TGroup -> (4 * length lts + 1 <= fuel)%nat ->
+  lalr_parse LalrEngine.the_tables ov fuel (mkP root lts false 0 0 None) =
+  lalr_expected (p_config ov (mkP root lts false 0 0 None)).
+Proof. exact lalr_equiv. Qed.
+Print Assumptions C02_lalr_equiv.
+
+(* errors: the same kind, in the same state (tree so far, offending token, line, file, tokens read) *)
+Theorem C02_lalr_equiv_err : forall ov root lts fuel e s',
+  has_stop (map lt_tok lts) -> s_ty root = TGroup -> (4 * length lts + 1 <= fuel)%nat ->
+  (lalr_parse LalrEngine.the_tables ov fuel (mkP root lts false 0 0 None) = PErr e s' <->
+   p_config ov (mkP root lts false 0 0 None) = PErr e s').
+Proof. exact lalr_equiv_err. Qed.
+Print Assumptions C02_lalr_equiv_err.
+
+(* acceptance: the same inputs, the same tree; the engine has shifted the end-of-input token the model only read *)
+Theorem C02_lalr_equiv_ok : forall ov root lts fuel s',
+  has_stop (map lt_tok lts) -> s_ty root = TGroup -> (4 * length lts + 1 <= fuel)%nat ->
+  p_config ov (mkP root lts false 0 0 None) = POk s' ->
+  lalr_parse LalrEngine.the_tables ov fuel (mkP root lts false 0 0 None) = POk (shift s') /\
+  p_root (shift s') = p_root s' /\ p_read (shift s') = p_read s' /\ p_line (shift s') = p_line s' /\
+  p_file (shift s') = p_file s'.
+Proof. exact lalr_equiv_ok. Qed.
+Print Assumptions C02_lalr_equiv_ok.
+
+(* hence the compiled tables accept exactly the derivable, semantically valid token lists (with C02_accept_iff) *)
+Theorem C02_lalr_accept_iff : forall ov root0, s_pl root0 = PGroup -> s_kids root0 = [] -> forall lts fuel,
+  has_stop (map lt_tok lts) -> (4 * length lts + 1 <= fuel)%nat ->
+  ((exists s', lalr_parse LalrEngine.the_tables ov fuel (mkP root0 lts false O 0 None) = POk s') <->
+   (exists ms, wf_m ms = true /\ spells ms lts /\ sem_m ov ms [] = true)).
+Proof.
+  intros ov root0 Hp Hk lts fuel Hs Hf.
+  assert (Hty : s_ty root0 = TGroup) by (destruct root0 as [n pl k f h l fi]; cbn in Hp |- *; subst pl; reflexivity).
+  rewrite (lalr_accepts_iff ov root0 lts fuel Hs Hty Hf). exact (accept_iff ov root0 Hp Hk lts).
+Qed.
+Print Assumptions C02_lalr_accept_iff.
+
+(* the engine never gets stuck, never runs out of its fuel, never reads past the stopping token *)
+Theorem C02_lalr_total : forall ov root lts fuel,
+  has_stop (map lt_tok lts) -> s_ty root = TGroup -> (4 * length lts + 1 <= fuel)%nat ->
+  match lalr_parse LalrEngine.the_tables ov fuel (mkP root lts false 0 0 None) with POk _ | PErr _ _ => True | _ => False end.
+Proof. exact lalr_total. Qed.
+Print Assumptions C02_lalr_total.
+
+(* no state of the automaton shifts bison's `error` symbol: a syntax error aborts where it is detected *)
+Theorem C02_lalr_no_error_recovery : forall q, shifts_error LalrEngine.the_tables q = false.
+Proof. exact no_error_shift. Qed.
+
+(* the macros the classified action texts and the driver rely on have the definitions the model assumes (translator) *)
+Example C02_grammar_macros_as_modelled : forallb snd g_macros_as_modelled = true.
+Proof. reflexivity. Qed.
+
+(* BOUNDED (a regression test of the engine, not the proof): all 204 205 token-kind sequences of at most 4 symbols over 21
+   representative tokens, each followed by end of input, both override settings: identical results, evaluated *)
+Theorem C02_lalr_agrees_bounded : forallb agree (all_inputs N_bound) = true.
+Proof. exact lalr_agrees_bounded. Qed.
+
+(* evaluated: a = { b = [1, 2]; c = ( "x" "y", { } ) }; through the engine *)
+Example C02_lalr_example :
+  lalr_parse LalrEngine.the_tables false (lalr_fuel ex_nested) (start ex_nested) = lalr_expected (p_config false (start ex_nested)) /\
+  (exists s, lalr_parse LalrEngine.the_tables true (lalr_fuel ex_syntax) (start ex_syntax) = PErr PErrSyntax s /\
+             p_config true (start ex_syntax) = PErr PErrSyntax s /\ p_line s = 4 /\ p_read s = 5%nat).
+Proof. split; [exact (proj1 lalr_nested) | exact lalr_syntax]. Qed.
